@@ -245,7 +245,7 @@ class Terminal(Service, discriminator="terminal"):
                         data={"reason": outcome},
                     )
             return RequestResponse(
-                status="success",
+                status="failure",
                 data={"reason": "Local Terminal failed to resolve command. Potentially invalid credentials?"},
             )
 
